@@ -33,7 +33,11 @@ RULE = ("one session per unordered pair of the 33-geometry lattice catalogue (al
         "millisecond events 2^18..2^27 s along the time axis; non-trivial = the pair has a positive affinity")
 TRUSTED_BASE = ["checks/c06.py + vt/geom.py (build geometries, call compute_affinity / buffer_geometry / compute_bounds, "
                 "encode doubles as limbs and hex; division of observed bounds by the power-of-two time unit)"]
-ASSUMPTIONS = ["dyadic units and power-of-two buffers: time extents of the implementation are exact on the lattice",
+ASSUMPTIONS = ["RectIoU (exact area IoU of polygons / multi-polygons bounded by axis-parallel rectangles, interior rings included) leans on "
+               "the property's title (an intersection-over-union); the statement spells the area IoU out for two bounding boxes only",
+               "the geometry objects of a session are constructed, derived by model_copy / attribute assignment from a used geometry "
+               "elsewhere, or deep-copied (case field prov): the affinity is taken to be a function of the geometries as values",
+               "dyadic units and power-of-two buffers: time extents of the implementation are exact on the lattice",
                "TimeInterval: the statement does not say whether its extent is buffered; both readings are accepted",
                "results that go through shapely's overlay are symmetric / shift invariant / self = 1 within 3e-9 (numeric "
                "policy); the upper bound 1 and the lower bound 0 are exact",
